@@ -15,8 +15,8 @@ pub static DEF: PropDef = PropDef {
     level: "exploration",
     rule: "each case runs five sub-monitors on the real iterator. (a) single-fault documents: a valid document (reference encoded, known and unknown sizes) receives exactly one fault of a known class at a random eligible element — id replaced by an id outside the specification / a known element inserted under a known-size parent that does not allow it / a leaf's declared size enlarged to overrun its known-size parent / a size limit set just below the first element that exceeds it — and the strict parse must yield exactly the items before the faulty element and then that class's error kind carrying the element's offset and id, with no raw tag among the Ok items; (c) the same document parsed while tolerating each OTHER single class must fail identically; with the faulty class tolerated that error kind must not occur; (b) on all inputs of (e), a parse that tolerates class X must never end in X's error kind; (d) a header declaring 4*10^9+1 bytes (5-8 byte size fields, at root, inside known- and unknown-size masters) is rejected with InvalidTagSize under all 8 tolerance settings while the size limit was never touched; (e) arbitrary inputs that start at a root element (valid, truncated, mutated, adversarial) are parsed under all 8 tolerance subsets: the strict Ok items (values and offsets) must be a prefix of every more tolerant parse. distinct = (fault class x tolerated set) pairs and (input kind x first strict error kind); non-trivial iff the fault is not at the first element / the strict parse has >= 2 items.",
     assumptions: &["reference encoder/layout", "hierarchy faults are inserted under known-size parents (or at root level) so that no unknown-size closing semantics can legitimise them", "in (d) a runaway allocation is caught by the allocator ceiling (1 GiB) and reported by the supervisor"],
-    cases_quick: 8000,
-    cases_thorough: 300_000,
+    cases_quick: 150_000,
+    cases_thorough: 2_000_000,
     floors: &[("single_fault_docs", 3000), ("fault_x_tolerance_pairs", 20_000), ("prefix_comparisons", 20_000), ("default_limit_probes", 2000), ("distinct_nontrivial", 40), ("fault_unknown-id", 500), ("fault_hierarchy", 500), ("fault_oversized-child", 300), ("fault_size-limit", 500)],
     exhaustive_note: Some("all 8 tolerance subsets for every single-fault document, default-limit probe and prefix input"),
     run,
